@@ -287,6 +287,26 @@ class SchedModel:
                 return True
         return False
 
+    def _foreign_wrapper(self, q: str) -> Optional[str]:
+        """q passes its first parameter (the node function) to an external callable and never uses a pool parameter: the callee's name."""
+        fi = self.P.funcs[q]
+        a = fi.node.args
+        params = [x.arg for x in a.posonlyargs + a.args]
+        if not params:
+            return None
+        fn_param = params[0]
+        pool_params = [x.arg for x in a.posonlyargs + a.args + a.kwonlyargs
+                       if "Executor" in ast.unparse(x.annotation or ast.Constant(value=""))]
+        used_pool = any(isinstance(n, ast.Name) and n.id in pool_params for n in iter_own_nodes(fi.node))
+        if used_pool:
+            return None
+        for n in iter_own_nodes(fi.node):
+            if isinstance(n, ast.Call) and any(isinstance(x, ast.Name) and x.id == fn_param for x in n.args):
+                cq = self.T.resolve_callee(fi, n)
+                if cq is not None and cq.startswith("ext:"):
+                    return cq
+        return None
+
     def _discover_dispatches(self) -> None:
         f = self.fn
         self.dispatch: Dict[int, dict] = {}  # id(call) -> {kind, call, stmt, future_var}
@@ -309,6 +329,10 @@ class SchedModel:
                     info["kind"] = "async"
                     info["callee"] = q
                     info["pool_passed"] = any(dotted(a) == self.pool_var for a in list(s.args) + [k.value for k in s.keywords])
+                elif q in self.P.funcs and self._foreign_wrapper(q) is not None:
+                    # a package wrapper that hands the node function to an external callable without using the pool it is given
+                    info["kind"] = "foreign"
+                    info["callee"] = self._foreign_wrapper(q)
                 elif q is not None and q.startswith("ext:") and not any(dotted(a) == self.pool_var for a in list(s.args) + [k.value for k in s.keywords]):
                     # the node function is handed to an external callable that does not involve the scheduler's pool
                     info["kind"] = "foreign"
